@@ -20,8 +20,8 @@ META = {
                    "every operator tree up to the stated depth built with the REAL overloads evaluates to the same Python arithmetic on "
                    "the operand values; a named override replaces exactly that argument",
     "bounds": {"quick": "all real arguments in the stated domains; operator trees of depth <= 2 over {Constant, Symbol, TPoly, 0, 1, 2, 3.0} "
-                        "with + - * / ** and negation; polynomials with up to 18 coefficients; piecewise with 2, 3 and 5 pieces and symbolic bounds",
-               "thorough": "+ operator trees of depth 3 (seeded subset of the 3-level shapes); piecewise with 6 and 9 pieces"},
+                        "with + - * / ** and negation; polynomials with up to 18 coefficients; piecewise with 2, 3, 5 and 9 pieces and symbolic bounds",
+               "thorough": "+ operator trees of depth 3 (seeded subset of the 3-level shapes); piecewise with up to 17 pieces"},
     "assumptions": [
         "backend independence is shown as: the value is one and the same term built from backend.exp/... for ANY backend object that "
         "provides those functions (uninterpreted), units independence as invariance under all positive unit scales (idealised stub)",
@@ -573,7 +573,7 @@ def tasks(tier, seed):
     ts = [dict(id="C16.%s" % c["name"], fn="task_case", kwargs=dict(casename=c["name"]), timeout=600) for c in CASES]
     ts += [dict(id="C16.sympy.%s" % n, fn="task_sympy", kwargs=dict(casename=n), timeout=600) for n in SYMPY_CASES]
     ts += [dict(id="C16.sympy_eval.%s" % n, fn="task_sympy_eval", kwargs=dict(casename=n), timeout=600) for n in SYMPY_EVAL_ONLY]
-    ts += [dict(id="C16.piecewise.%d" % n, fn="task_piecewise", kwargs=dict(npieces=n), timeout=300) for n in ((2, 3, 5) if tier == "quick" else (2, 3, 5, 6, 9))]
+    ts += [dict(id="C16.piecewise.%d" % n, fn="task_piecewise", kwargs=dict(npieces=n), timeout=300) for n in ((2, 3, 5, 9) if tier == "quick" else (2, 3, 4, 5, 6, 7, 9, 12, 17))]
     ts.append(dict(id="C16.constants", fn="task_constants", kwargs={}, timeout=60))
     tl = [t for t in trees(1) if t[0] != "leaf"] + [t for t in trees(2) if t[0] != "leaf" and t not in trees(1)]
     if tier == "quick":
